@@ -66,6 +66,51 @@ def model_and_replay(run, configs, pid_key):
     run.extra.setdefault("coverage_by_action", {}).update({"Lexer." + a: cov.get(a, 0) for a in ACTIONS})
 
 
+def histories(run, maxlen, pid_key, alphabet="A4"):
+    """Registration histories: the three user operators (+++ prefix, --- postfix, hi infix) registered in each of the 6 orders,
+    with every input <= maxlen of the alphabet tokenized before the first and after each registration; the expected tokens at each
+    stage come from the Lexer machine run under exactly the operator set registered so far."""
+    import itertools
+    bit = {"prefix": 1, "postfix": 2, "infix": 4}
+    opname = {"prefix": "+++", "postfix": "---", "infix": "hi"}
+    files = {}
+    for mask in range(8):
+        res = tlc.run("mc/MCLexer.tla", mc_cfg("hist-S%d" % mask, maxlen, alphabet, "OpsS%d" % mask), workers=16, timeout=1800)
+        run.tlc("M:Lexer/hist/S%d" % mask, res)
+        if res.violation:
+            run.model_violation("Lexer/hist/S%d" % mask, res)
+            return
+        recs = core.tlc_printed_records(res)
+        path = os.path.join(tlc.WORK, "lex-hist-S%d.ndjson" % mask)
+        core.write_ndjson(path, recs)
+        files[mask] = (path, recs)
+    nb = 0
+    for order in itertools.permutations(["prefix", "postfix", "infix"]):
+        mask = 0
+        script = [{"replay": files[0][0], "stage": "S0"}]
+        for k in order:
+            mask |= bit[k]
+            script.append({"reg": [k, opname[k]]})
+            script.append({"replay": files[mask][0], "stage": "S%d" % mask})
+        sp = os.path.join(tlc.WORK, "lex-hist-script.json")
+        json.dump(script, open(sp, "w"))
+        out, _ = core.run_vh(["lex-history", sp])
+        summ = [o for o in out if "summary" in o]
+        if len(summ) != 4:
+            raise tlc.ToolError("lex-history did not run every stage")
+        for s_ in summ:
+            run.traces += s_["summary"]["replayed"]
+            run.evaluations += s_["summary"]["replayed"]
+        for o in out:
+            if "mismatch" in o:
+                nb += 1
+                m = int(o["stage"][1:])
+                run.violation("%s/lex/history" % pid_key, "after registering %s (in this order), tokenizer disagrees with the Lexer spec under that operator set on %r: %s"
+                              % ([k for k in order if bit[k] & m], o["input"], o["why"]),
+                              {"family": "lex-history", "order": list(order), "stage": o["stage"], "record": files[m][1][o["mismatch"]], "got": o.get("got"), "why": o["why"]})
+    run.leg("R:Lexer/histories", orders=6, stages=4, mismatches=nb)
+
+
 def trace_validate(run, n, maxlen, seed, ops, pid_key, shards=16):
     """Leg T: random UTF-8 inputs tokenized by the real code, each execution validated by TLC against the Lexer machine."""
     path = os.path.join(tlc.WORK, "lex-trace-%s.ndjson" % ops)
